@@ -219,28 +219,38 @@ ADDENDA = {
            'effects (a jump back to its own label); a record field the program itself fills with NULL for some record kinds '
            'is dereferenced only behind a NULL test or the same record-kind test, with the list cursor advanced once per '
            'record kind that appended an element (alink); an index that starts at 0 never runs to "<= count" over an array '
-           'that three other loops treat as counted.',
+           'that three other loops treat as counted. A loop whose exit variable moves only by "+= step" does not add zero '
+           '(interval analysis; undecided loops are listed, not claimed); results of tool functions that can return NULL '
+           'are tested before use; integers from the code file are bounded before they are added to a pointer; in-place '
+           'insertion into a buffer of unknown size only behind a capacity comparison; a length derived from a function '
+           'argument is not narrowed before it was bounded.',
     'C04': ' Also: line bytes are written straight to the file only after the write-behind buffer was flushed.',
     'C05': ' Also: the measuring pass updates start/stop/granularity only for records the copy selects; the target offset of '
            'a record depends on the same lane parameters as the byte-lane filter; dimension check of address/byte arithmetic.'
-           " The pre-fill buffer's last store before the fill loop is the fill value.",
+           " The pre-fill buffer's last store before the fill loop is the fill value."
+           ' The list behind the overlap warning lives for the whole run and AddChunk() compares summed and merged length '
+           'for every union it forms.',
     'C06': ' Also: per-record Boolean state is assigned before it is read in every record and format; the measuring pass '
            'applies the same CPU/segment selection as the conversion; dimension check.',
     'C07': ' Also: the tools\' granularity table (used for short headers) equals the code generators\' Grans[SegCode] per '
            'header id; fread/fwrite result convention; ChkIO() only under a failure test or after errno = 0.',
     'C08': ' Also: every operator handler applies the C operator of its symbol to (left, right); logical operators use truth '
            'values only; a letter is a number-system marker exactly when it is no digit of the current RADIX (linear normal '
-           'form of the comparison).',
+           'form of the comparison), and every handler that recognises a marker letter next to the digits reaches '
+           '"return True" only through that comparison.',
     'C09': ' Also: no carry/borrow/length adjustment of a fill or length counter is overwritten before it can be observed '
            '(lost update) in the data-definition modules.'
            ' The range check of a data value is skipped only under FirstPassUnknown|Questionable; string characters reach the emitters as unsigned bytes.'
-           ' Translated strings are handled by length, never by C-string functions; the half-precision rounding decision reads all cut-off bits.',
+           ' Translated strings are handled by length, never by C-string functions; the half-precision rounding decision reads all cut-off bits.'
+           ' A cached program counter is not used after a call that can advance the counter.',
     'C10': ' Also: STRUCT set-up touches only the struct pseudo segment; rounding of the program counter is done in the '
            'unsigned address type; ORG and PHASE hold an address operand in the address type; logical and physical addresses '
-           'are not mixed; RESTORE actions are independent of each other.',
+           'are not mixed; RESTORE actions are independent of each other. A cached program counter is not used after a '
+           'call that can advance the counter.',
     'C11': ' Also: default values are never applied because of the argument text; the argument list and its counter move '
            'together and every formal parameter is substituted; terminator-aware growth of line buffers. A loop body is '
-           'queued only for a positive iteration count; body processors clear the first-line flag their restorer tests.',
+           'queued only for a positive iteration count; body processors clear the first-line flag their restorer tests. '
+           'Arguments behind the formal parameters are appended whatever their text.',
     'C13': ' Also: nothing but definitions (and look-ups of the name being defined) happens inside a global-scope escape; '
            'section/forward chain searches stop at the first match.'
            ' Stored user-defined names are compared exactly (case folding only through the CaseSensitive-guarded up-casing).'
@@ -251,17 +261,22 @@ ADDENDA = {
            'the operands the adjustment actually used; AVR wrap masks are derived from the word-address limit.',
     'C15': ' Also: assembler and disassembler use the same page reference for 4004 JCN/ISZ. The disassembler prints labels, '
            'ORG and hex literals in the syntax the matching assembler accepts; address wrap uses a 2^n-1 mask and the '
-           'next-address slots are read only where they were written.',
-    'C16': ' Also: a generator\'s per-line carrier state is copied only behind the non-empty-statement test.',
+           'next-address slots are read only where they were written. The image loaders append a record to a chunk only '
+           'where its address equals the chunk end.',
+    'C16': ' Also: a generator\'s per-line carrier state is copied only behind the non-empty-statement test. No string '
+           'literal continues behind an embedded NUL and a divider set with the blank has the tab; the CR of a CR-LF pair '
+           'is looked for in the collected line, not only in the last chunk read.',
     'C17': ' Also: ChkIO() on report outputs stands under a failure test or after errno = 0, so that a report option cannot '
            'abort the assembly through a stale errno.'
-           ' Formatted text that is handed back to the caller as a value does not depend on a report option; generated symbol names use only %d/%s and %d ignores -SPLITBYTE.',
+           ' Formatted text that is handed back to the caller as a value does not depend on a report option; generated symbol names use only %d/%s and %d ignores -SPLITBYTE.'
+           ' Clears of code-affecting state between passes are not controlled by a report option.',
     'C18': ' Also: no generator consumes shared scratch only other targets assign; the target\'s SwitchFrom runs inside the '
            'end-of-pass phase before the error accounting is closed.'
            ' ParseCPUArgs() splits a private copy of the -cpu argument list; lists classified as emptied per pass have a must-kill check.'
            ' Per-line carrier state of a generator (prefix pending for the next instruction) is reset when the target is initialised.',
     'C19': ' Also: WriteBytes() undoes its byte swap on every path (the listing is produced afterwards).'
-           ' The debug (MAP/NoICE) writers use a fixed radix. The include-file line mapping is pushed and popped in pairs.',
+           ' The debug (MAP/NoICE) writers use a fixed radix. The include-file line mapping is pushed and popped in pairs.'
+           ' The Clear*/Reset* functions called between passes empty their lists on every path.',
     'C20': ' Also: ReadLnCont() advances the returned line count once per physical line, terminated or not; restorer/constructor '
            'pairing of the position state. The iteration number of loop positions is normalised in one direction.',
     'C02': ' -Werror promotion is tested inside the emitter on every path to the warning count.',
